@@ -1291,11 +1291,19 @@ def p_write_settable_attribute(rng, s, b):
     pls = _pipes(rng, s, b)
     if not pls:
         return None
-    pl = rng.choice(pls)
+    # prefer a threaded action on the written promise; half of the time let it repeat its thread group's checkpoint
+    # in its own depends_on (a legal, redundant spelling that takes another path through the collection pass)
+    gdep = {g["id"]: g["dep"] for g in s["groups"]}
+    pairs = [(pl, a) for pl in pls for a in s["actions"] if a["promise"] == pl["promise"]]
+    threaded = [(pl, a) for (pl, a) in pairs if a["ctx"] is not None and gdep.get(a["ctx"][1]) is not None and a["dep"] in (None, gdep.get(a["ctx"][1]))]
+    if threaded and rng.random() < 0.6:
+        pl, a = rng.choice(threaded)
+        if rng.random() < 0.6:
+            a["dep"] = gdep[a["ctx"][1]]
+    else:
+        pl, a = rng.choice(pairs)
     own = pl["promise"][1]
     attr = rng.choice(pl["out"])[1]
-    acts = [a for a in s["actions"] if a["promise"] == ("promise", own)]
-    a = rng.choice(acts)
     T = find(s["otypes"], find(s["promises"], own)["type"][1])
     at = next(x for x in T["attrs"] if x["name"] == attr)
     if at["kind"][0] == "F" and b.creator.get(own) == a["id"] and rng.random() < 0.3:
@@ -1743,4 +1751,3 @@ def p_structural_fault(rng, s, b):
     return "pipeline whose object_promise is an action reference"
 
 
-M.FORCE_ID_SPELLING.add("p_structural_fault")
